@@ -13,6 +13,10 @@ use std::sync::{
 use crate::verif_sync::{AtomicU64 as StdAtomicU64, Mutex};
 #[cfg(prometheus_verif)]
 use std::sync::{atomic::Ordering, Arc};
+// Whatever else this file may come to use from std::sync::atomic resolves under the verification cfg too.
+#[cfg(prometheus_verif)]
+#[allow(unused_imports)]
+use std::sync::atomic::*;
 use std::time::{Duration, Instant as StdInstant};
 
 use crate::atomic64::{Atomic, AtomicF64, AtomicU64};
